@@ -24,12 +24,28 @@ Fixpoint prep {A} (n : nat) (p : parser A) : parser (list A) :=
   | S m => let* a := p in let* t := prep m p in pret (a :: t)
   end.
 
-(* count-prefixed list; the count is bounded by the remaining input length so that a corrupt
-   count cannot make the parser build a huge nat *)
+(* count-prefixed list. The element parser is iterated with the remaining input as fuel (every
+   element consumes at least one number), so a corrupt count cannot make the parser build a huge
+   nat and the whole parse stays linear in the input. *)
+Fixpoint prep_fuel {A} (fuel : list N) (n : N) (p : parser A) (l : list N) : option (list A * list N) :=
+  if n =? 0 then Some ([], l)
+  else match fuel with
+       | [] => None
+       | _ :: fuel' =>
+           match p l with
+           | Some (a, l') =>
+               match prep_fuel fuel' (n - 1) p l' with
+               | Some (t, l'') => Some (a :: t, l'')
+               | None => None
+               end
+           | None => None
+           end
+       end.
+
 Definition plist {A} (p : parser A) : parser (list A) :=
   fun l => match l with
            | [] => None
-           | n :: t => if N.of_nat (length t) <? n then None else prep (N.to_nat n) p t
+           | n :: t => prep_fuel l n p t
            end.
 
 (* run to end of input *)
